@@ -307,6 +307,176 @@ func HasRuntimeDoc(ptr any) bool {
 	return ok
 }
 
+// CheckPartial compares the generated partial struct (gen points to one) with
+// the origin struct (org points to one) and exercises DeepCopyAs.
+func CheckPartial(checks *int, fails *[]string, label string, gen, org any, omitted []string, replaced map[string]string) {
+	fail := func(format string, a ...any) { *fails = append(*fails, label+": "+fmt.Sprintf(format, a...)) }
+	gt := reflect.TypeOf(gen).Elem()
+	ot := reflect.TypeOf(org).Elem()
+	om := map[string]bool{}
+	for _, o := range omitted {
+		om[o] = true
+	}
+	var retained []reflect.StructField
+	for i := 0; i < ot.NumField(); i++ {
+		if !om[ot.Field(i).Name] {
+			retained = append(retained, ot.Field(i))
+		}
+	}
+	*checks++
+	if gt.Kind() != reflect.Struct || gt.NumField() != len(retained) {
+		fail("generated type has %d fields, origin retains %d: %v", gt.NumField(), len(retained), gt)
+		return
+	}
+	for i, rf := range retained {
+		gf := gt.Field(i)
+		*checks++
+		if gf.Name != rf.Name {
+			fail("field %d is %s, origin order says %s", i, gf.Name, rf.Name)
+			continue
+		}
+		if newTag, isReplaced := replaced[rf.Name]; isReplaced {
+			if newTag != "" && string(gf.Tag) != newTag {
+				fail("replaced field %s has tag %q, the replace tag says %q", gf.Name, gf.Tag, newTag)
+			}
+			continue
+		}
+		if gf.Type != rf.Type {
+			fail("field %s has type %v, origin has %v", gf.Name, gf.Type, rf.Type)
+		}
+		if gf.Tag != rf.Tag {
+			fail("field %s has tag %q, origin has %q", gf.Name, gf.Tag, rf.Tag)
+		}
+	}
+	// DeepCopyAs
+	pv := reflect.ValueOf(gen)
+	m := pv.MethodByName("DeepCopyAs")
+	if !m.IsValid() {
+		fail("no DeepCopyAs method")
+		return
+	}
+	*checks++
+	if res := reflect.Zero(pv.Type()).MethodByName("DeepCopyAs").Call(nil)[0]; !res.IsNil() {
+		fail("DeepCopyAs of nil is not nil")
+	}
+	n := 0
+	Fill(pv.Elem(), &n)
+	*checks++
+	res := m.Call(nil)[0]
+	if res.Type() != reflect.PointerTo(ot) {
+		fail("DeepCopyAs returns %v, want *%v", res.Type(), ot)
+		return
+	}
+	if res.IsNil() {
+		fail("DeepCopyAs of a non-nil value returned nil")
+		return
+	}
+	out := res.Elem()
+	for i := 0; i < ot.NumField(); i++ {
+		f := ot.Field(i)
+		*checks++
+		if om[f.Name] {
+			if !out.Field(i).IsZero() {
+				fail("omitted field %s is not zero in the result: %v", f.Name, out.Field(i).Interface())
+			}
+			continue
+		}
+		src := pv.Elem().FieldByName(f.Name)
+		if _, isReplaced := replaced[f.Name]; isReplaced {
+			// compare field by field by name
+			dst := out.Field(i)
+			for src.Kind() == reflect.Pointer && !src.IsNil() {
+				src = src.Elem()
+			}
+			for dst.Kind() == reflect.Pointer && !dst.IsNil() {
+				dst = dst.Elem()
+			}
+			if src.Kind() == reflect.Struct && dst.Kind() == reflect.Struct {
+				for k := 0; k < dst.NumField(); k++ {
+					sf := src.FieldByName(dst.Type().Field(k).Name)
+					if sf.IsValid() && !reflect.DeepEqual(sf.Interface(), dst.Field(k).Interface()) {
+						fail("replaced field %s.%s: %v in the source, %v in the result", f.Name, dst.Type().Field(k).Name, sf.Interface(), dst.Field(k).Interface())
+					}
+				}
+			}
+			continue
+		}
+		if !reflect.DeepEqual(src.Interface(), out.Field(i).Interface()) {
+			fail("retained field %s: %v in the source, %v in the result", f.Name, src.Interface(), out.Field(i).Interface())
+		}
+	}
+}
+
+// EqualNilEmpty is reflect.DeepEqual with nil and empty slices/maps identified.
+func EqualNilEmpty(a, b reflect.Value) bool {
+	if a.IsValid() != b.IsValid() {
+		return false
+	}
+	if !a.IsValid() {
+		return true
+	}
+	if a.Type() != b.Type() {
+		return false
+	}
+	switch a.Kind() {
+	case reflect.Slice:
+		if a.Len() != b.Len() {
+			return false
+		}
+		for i := 0; i < a.Len(); i++ {
+			if !EqualNilEmpty(a.Index(i), b.Index(i)) {
+				return false
+			}
+		}
+		return true
+	case reflect.Array:
+		for i := 0; i < a.Len(); i++ {
+			if !EqualNilEmpty(a.Index(i), b.Index(i)) {
+				return false
+			}
+		}
+		return true
+	case reflect.Map:
+		if a.Len() != b.Len() {
+			return false
+		}
+		for _, k := range a.MapKeys() {
+			bv := b.MapIndex(k)
+			if !bv.IsValid() || !EqualNilEmpty(a.MapIndex(k), bv) {
+				return false
+			}
+		}
+		return true
+	case reflect.Struct:
+		for i := 0; i < a.NumField(); i++ {
+			if !EqualNilEmpty(a.Field(i), b.Field(i)) {
+				return false
+			}
+		}
+		return true
+	case reflect.Pointer, reflect.Interface:
+		if a.IsNil() || b.IsNil() {
+			return a.IsNil() == b.IsNil()
+		}
+		return EqualNilEmpty(a.Elem(), b.Elem())
+	case reflect.Float32, reflect.Float64:
+		return a.Float() == b.Float()
+	}
+	return reflect.DeepEqual(a.Interface(), b.Interface())
+}
+
+// CheckValue compares a value compiled from a rendered literal with the original.
+func CheckValue(checks *int, fails *[]string, i int, got, want any) {
+	*checks++
+	if reflect.TypeOf(got) != reflect.TypeOf(want) {
+		*fails = append(*fails, fmt.Sprintf("%d: type %T, want %T", i, got, want))
+		return
+	}
+	if !EqualNilEmpty(reflect.ValueOf(got), reflect.ValueOf(want)) {
+		*fails = append(*fails, fmt.Sprintf("%d: evaluates to %#v, the original is %#v", i, got, want))
+	}
+}
+
 // CheckDeepCopy exercises the generated DeepCopy of the value ptr points to.
 func CheckDeepCopy(checks *int, fails *[]string, name string, ptr any) {
 	fail := func(format string, a ...any) { *fails = append(*fails, name+": "+fmt.Sprintf(format, a...)) }
